@@ -197,6 +197,10 @@ CollectEntries ==
            res == Collect(SetToSeq(FE), [ok |-> TRUE, d |-> EmptyFn]) IN
        IF ~res.ok
        THEN /\ result' = "incompatible" /\ pc' = "done" /\ UNCHANGED <<edict, walk>>
+       ELSE IF SubNotDir(scn, sub)
+       THEN \* os.walk on something that is no directory: the OSError (ENOTDIR / ENOENT) is raised, in
+            \* keep-going mode as well
+            /\ result' = "oserror" /\ pc' = "done" /\ UNCHANGED <<edict, walk>>
        ELSE /\ edict' = res.d /\ walk' = <<sub>> /\ pc' = "walk" /\ UNCHANGED result
     /\ UNCHANGED <<scn, sub, last, keep, loaded, reported>>
 
